@@ -443,15 +443,19 @@ class GriddedPSFModel(ModelGridPlotMixin, Fittable2DModel):
         xidx = np.searchsorted(self._xgrid, x) - 1
         yidx = np.searchsorted(self._ygrid, y) - 1
 
-        # Clip the indices to valid ranges
-        xidx = np.clip(xidx, 0, len(self._xgrid) - 2)
-        yidx = np.clip(yidx, 0, len(self._ygrid) - 2)
+        # Clip the indices to valid ranges; a grid with a single column
+        # (or row) has only one x (or y) value, which is then both the
+        # lower and the upper bounding coordinate
+        nxgrid = len(self._xgrid)
+        nygrid = len(self._ygrid)
+        xidx = np.clip(xidx, 0, max(nxgrid - 2, 0))
+        yidx = np.clip(yidx, 0, max(nygrid - 2, 0))
 
         # Find the four bounding points in the sorted grid
         # (x0, y0) is the lower-left corner of the grid
         # (x1, y1) is the upper-right corner of the grid
-        x0, x1 = self._xgrid[xidx], self._xgrid[xidx + 1]
-        y0, y1 = self._ygrid[yidx], self._ygrid[yidx + 1]
+        x0, x1 = self._xgrid[xidx], self._xgrid[min(xidx + 1, nxgrid - 1)]
+        y0, y1 = self._ygrid[yidx], self._ygrid[min(yidx + 1, nygrid - 1)]
 
         # Find the indices of these points in grid_xypos
         xcoords, ycoords = self.grid_xypos.T
@@ -490,6 +494,14 @@ class GriddedPSFModel(ModelGridPlotMixin, Fittable2DModel):
 
         xi = np.clip(xi, x0, x1)
         yi = np.clip(yi, y0, y1)
+
+        # a grid with a single column (or row) has x0 == x1 (or y0 ==
+        # y1); use a unit interval so that the single reference value
+        # gets the full weight
+        if x1 == x0:
+            x1 = x0 + 1
+        if y1 == y0:
+            y1 = y0 + 1
 
         norm = (x1 - x0) * (y1 - y0)
         # lower-left, lower-right, upper-left, upper-right
